@@ -72,6 +72,18 @@ fn want_mismatch_clone(o: &Out) -> Out {
     }
 }
 
+/// A valid .dbf with n rows for the complete reader.
+fn dbf_with_rows(n: usize) -> Vec<u8> {
+    let dest = crate::iomon::Dest::new();
+    {
+        let mut w = crate::e_c10::table_builder().build_with_dest(dest.clone());
+        for i in 0..n {
+            w.write_record(&crate::e_c08::good_row(i)).expect("harness: dbf row");
+        }
+    }
+    dest.data()
+}
+
 struct TestFile {
     t: i32,
     shp: Vec<u8>,
@@ -115,6 +127,16 @@ where
     }
     if let Some(p) = &f.path {
         apis.push(("read_shapes_as(path)", classify(panicmon::catch(|| shapefile::read_shapes_as::<_, S>(p)))));
+    }
+    // the complete reader's typed routes (a table of n rows next to the shapes)
+    if !f.shx.is_empty() && !cfg!(miri) {
+        let dbf = dbf_with_rows(f.n);
+        let mkr = || -> Result<Reader<Cursor<Vec<u8>>, Cursor<Vec<u8>>>, Error> { Ok(Reader::new(ShapeReader::with_shx(Cursor::new(f.shp.clone()), Cursor::new(f.shx.clone()))?, shapefile::dbase::Reader::new(Cursor::new(dbf.clone()))?)) };
+        apis.push(("Reader::read_as", classify(panicmon::catch(|| mkr().and_then(|mut r| r.read_as::<S, shapefile::dbase::Record>()).map(|v| v.into_iter().map(|(s, _)| s).collect::<Vec<S>>())))));
+        apis.push((
+            "Reader::iter_shapes_and_records_as",
+            classify(panicmon::catch(|| mkr().and_then(|mut r| r.iter_shapes_and_records_as::<S, shapefile::dbase::Record>().collect::<Result<Vec<_>, Error>>()).map(|v| v.into_iter().map(|(s, _)| s).collect::<Vec<S>>()))),
+        ));
     }
 
     for (api, got) in apis {
@@ -184,7 +206,18 @@ pub fn run(ctx: &Ctx) -> Report {
                 (a, b, n)
             } else {
                 let c = Cfg::hostile(0.1, 3, 4);
-                let shapes = gen::sequence(t, &mut r, &c, 1, 4, k as u64);
+                let mut shapes = gen::sequence(t, &mut r, &c, 1, 4, k as u64);
+                if k + 1 == files_per_type && !cfg!(miri) {
+                    if gen::is_point(t) {
+                        // many records (beyond 2^12)
+                        shapes = (0..4100).map(|_| gen::shape(t, &mut r, &Cfg::plain(1, 1))).collect();
+                    } else {
+                        // one record beyond 64 KiB between small ones
+                        shapes.push(gen::shape_exact(t, &mut r, &Cfg::plain(1, 2), 1, 4200));
+                        shapes.push(gen::shape(t, &mut r, &Cfg::plain(2, 3)));
+                    }
+                    rep.count("files_with_a_large_record_or_many_records", 1);
+                }
                 let (a, b) = write_all_mem(&shapes, k % 2 == 0).expect("harness: writing a test file failed");
                 (a, b, shapes.len())
             };
@@ -413,7 +446,8 @@ pub fn run(ctx: &Ctx) -> Report {
             }
             let mut r = Rng::derive(ctx.seed, &[tag("c06-mixed"), s_code as u64, k as u64]);
             let c = Cfg::plain(2, 3);
-            let len = r.usize_in(2, 7);
+            // one sequence in eight is long (65..140 elements)
+            let len = if k % 8 == 5 && !cfg!(miri) { r.usize_in(65, 140) } else { r.usize_in(2, 7) };
             let lead = if k % 3 == 0 { 0 } else { r.usize_in(0, len - 2) };
             let mut codes: Vec<i32> = vec![];
             for i in 0..len {
